@@ -123,7 +123,7 @@ RESOURCES = [
     resource([seg("collRR", "collRRId", P("int64"))], R("Ent"),
              rest(["get", "create", "batch_create", "partial_update"], return_entity=("create", "batch_create", "partial_update")), ro=["id", "nested/b"]),
     # exclusion shapes of their own: a directive naming a whole record-typed field; create-only annotations without any read-only one
-    resource([seg("collRO", "collROId", P("int64"))], R("Ent"), rest(["get", "create", "update", "partial_update"]), ro=["nested"]),
+    resource([seg("collRO", "collROId", P("int64"))], R("Ent"), rest(["get", "create", "update", "partial_update", "batch_partial_update"]), ro=["nested"]),
     resource([seg("collCO", "collCOId", P("int64"))], R("Ent"), rest(["get", "create", "update", "partial_update", "batch_update"]), co=["created"]),
     resource([seg("collCK", "collCKId", R("CK"))], R("Leaf"),
              rest(["get", "create", "batch_get", "batch_update", "batch_partial_update", "batch_delete"])),
